@@ -420,9 +420,10 @@ func cmdReplay(args []string) {
 	fs := flag.NewFlagSet("replay", flag.ExitOnError)
 	prop := fs.String("prop", "", "only report this property")
 	trace := fs.String("trace", "", "print the record of the context with this ID prefix after every step")
+	steps := fs.Bool("steps", false, "print every step with its result")
 	fs.Parse(args)
 	if fs.NArg() < 1 {
-		fmt.Println("usage: chainmon replay [-prop Cxx] <file>")
+		fmt.Println("usage: chainmon replay [-prop Cxx] [-steps] [-trace ctxprefix] <file>")
 		os.Exit(2)
 	}
 	b, err := ioutil.ReadFile(fs.Arg(0))
@@ -435,6 +436,11 @@ func cmdReplay(args []string) {
 	st := NewStats()
 	mon := NewMon(st)
 	a := NewApp()
+	if *steps {
+		mon.extra = append(mon.extra, func(sc *StepCtx) {
+			fmt.Printf("  [%d] h=%d %-70.70s %s res=%s new-requests=%d\n", sc.Idx, sc.Post.Height, sc.Step.Desc, sc.Step.Note, okStr(sc.Res), len(sc.Post.Requests)-len(sc.Pre.Requests))
+		})
+	}
 	if *trace != "" {
 		mon.extra = append(mon.extra, func(sc *StepCtx) {
 			for id, rc := range sc.Post.Contexts {
